@@ -1,4 +1,5 @@
 import Proofs.HypervolumeNds
+import Proofs.HvRecorder
 
 /-!
 # C12 — Hypervolume indicator is exact, monotone and side-effect free
@@ -29,6 +30,15 @@ coordinate of the volumes of the cross-sections, clipped at the reference.
 * **partial** (`C12_nd_code_partial`): for ≥ 5 objectives *and a point on the reference boundary in
   an objective `3 … m−2`* the model is tied to `hv` by the correspondence run only (see the comment
   at `C12_nd_code`).
+
+* the glue in `evaluator/callback.py` (`Model/HvRecorder.lean`): `ObjectiveRecorder` calls
+  `hypervolume(-objectives, componentwise worst point)`; that call is inside the property's quantifier
+  (`C12_recorder_in_quantifier`), the value it computes is the specified one for 1–4 objectives
+  (`C12_recorder_code`), the hypervolume is monotone in the reference (`C12_ref_monotone`), hence the
+  value reported along ANY stream of jobs — failures included, any length — never decreases
+  (`C12_recorder_monotone`); a failure records nothing (`C12_recorder_failure`); the early-stopping
+  counter restarts on every strict improvement and the search stops only after `patience`
+  non-improving jobs (`C12_stopper_improving`, `C12_stopper_patience`).
 
 Side-effect freedom is an observation on the real code (the caller's array and reference are
 compared before/after every call in `harness/c12.py`); in the model it is immediate: every
@@ -299,6 +309,71 @@ theorem C12_nd_code_partial (ref : List Rat) (pts : List Vec) (order : List Nat)
   rw [hvLast_eq _ _ (by rw [hlen]; exact rect_shift rfl hrf), hv_translate ref ref front rfl hrf]
   exact hv_front ref pts order ho.1 ho.2
 
+/-! ### the glue in `evaluator/callback.py`: `ObjectiveRecorder`, `SearchEarlyStopping` -/
+
+/-- **C12 (monotone in the reference point).**  Moving the reference point up (componentwise) never
+decreases the dominated volume — for every point list and every number of objectives. -/
+theorem C12_ref_monotone (ref ref' : List Rat) (P : List Vec) (h : wdVec ref ref' = true) :
+    hv ref P ≤ hv ref' P :=
+  hv_ref_mono ref ref' P h
+
+/-- **C12 (the recorder's call is inside the quantifier).**  The reference point the recorder passes,
+`np.max(-objectives, axis=0)`, has `m` coordinates and every recorded point is weakly below it —
+for every non-empty history of `m`-objective jobs. -/
+theorem C12_recorder_in_quantifier (m : Nat) (objs : List Vec) (hne : objs ≠ []) (hrect : Rect m objs) :
+    (worst (recPts objs)).length = m ∧ ∀ p ∈ recPts objs, wdVec p (worst (recPts objs)) = true :=
+  ⟨worst_length (by simpa [recPts] using hne) (rect_recPts hrect), wd_worst (rect_recPts hrect)⟩
+
+/-- **C12 (recorder: what the code computes is the specified value), 1–4 objectives.**  For every
+history, every argsort order inside the pre-filter: `hypervolume(-objectives, worst point)` as the
+code computes it (`recValueCode`) is the exact hypervolume of ALL recorded objectives w.r.t. their
+componentwise worst point (`recValue`).  Boundary points are the rule here (each coordinate of the
+worst point is attained), which is why this rests on `C12_4d_code` / `C12_nd_code_class` and is
+limited to `m ≤ 4` like them.  `hbig`: above the code's sentinel `-1.0e308`. -/
+theorem C12_recorder_code (m : Nat) (objs : List Vec) (order : List Nat) (hm : 1 ≤ m) (hm4 : m ≤ 4)
+    (hrect : Rect m objs) (ho : OrderOK objs.length order)
+    (hbig : ∀ p ∈ recPts objs, ∀ k, k < m → negInf < co p k - co (worst (recPts objs)) k) :
+    recValueCode objs order = recValue objs :=
+  recValueCode_eq objs order hm hm4 hrect ho.1 ho.2 hbig
+
+/-- **C12 (recorder: a failed job records nothing).** -/
+theorem C12_recorder_failure (st : List Vec) (jobs : List (Option Vec)) :
+    recStep st none = st ∧ recRun st (none :: jobs) = recValue st :: recRun st jobs :=
+  ⟨rfl, rfl⟩
+
+/-- **C12 (recorder: one more job never decreases the reported value).** -/
+theorem C12_recorder_step (m : Nat) (st : List Vec) (v : Vec) (hst : Rect m st) (hv' : v.length = m) :
+    leVal (recValue st) (recValue (recStep st (some v))) :=
+  recValue_step st v hst hv'
+
+/-- **C12 (recorder: monotone along every stream).**  Starting from any history, along any stream
+of jobs (vectors of `m` objectives and failures, any length) the reported values never decrease:
+each is `≥` the value before the stream and `≥` every earlier one (`none` = `-inf`). -/
+theorem C12_recorder_monotone (m : Nat) (st : List Vec) (jobs : List (Option Vec)) (hst : Rect m st)
+    (hj : ∀ v, some v ∈ jobs → v.length = m) :
+    (∀ x ∈ recRun st jobs, leVal (recValue st) x) ∧ (recRun st jobs).Pairwise leVal :=
+  ⟨recRun_lower jobs st hst hj, recRun_pairwise jobs st hst hj⟩
+
+/-- the evaluator the driver runs for a stream is the specification -/
+theorem C12_recorder_fast (st : List Vec) (jobs : List (Option Vec)) :
+    recRunFast st jobs = recRun st jobs :=
+  recRunFast_eq jobs st
+
+/-- **C12 (early stopping: an improvement restarts the patience).**  When the reported hypervolume
+strictly improves on the best one so far, `SearchEarlyStopping` (patience ≥ 1) takes it as the new
+best, resets its counter and does not change `search_stopped`. -/
+theorem C12_stopper_improving (patience : Nat) (thr : Option Rat) (s : Stopper) (v b : Option Rat)
+    (hp : 0 < patience) (hb : s.best = some b) (hgt : gtVal v b = true) :
+    stopStep patience thr s v = { s with best := some v, nLower := 0 } :=
+  stopStep_improving patience thr s v b hp hb hgt
+
+/-- **C12 (early stopping: only after `patience` non-improving jobs).** -/
+theorem C12_stopper_patience (patience : Nat) (thr : Option Rat) (s : Stopper) (v : Option Rat)
+    (h : (stopStep patience thr s v).stopped = true) :
+    s.stopped = true ∨ patience ≤ (stopStep patience thr s v).nLower :=
+  stopStep_stopped patience thr s v h
+
+
 /-! ### non-vacuity / regression examples (evaluated by the kernel) -/
 
 -- the spike's hand examples
@@ -345,6 +420,36 @@ example : (∀ p ∈ [[0, 3, 3], [3, 0, 3], [3, 3, 0], [4, 0, 0]], wdVec p [4, 4
 example : hv [4, 4, 4] [[0, 3, 3], [3, 0, 3], [3, 3, 0], [4, 0, 0]] = 10 ∧
     sweepSum (fun X => hv [4, 4] (X.map List.tail)) 4 [] [0, 3, 3] [[3, 0, 3], [3, 3, 0], [4, 0, 0]] = 10 := by
   decide +kernel
+
+/-! ### the recorder: non-vacuity and regression examples -/
+
+-- a stream with failures: `-inf` before the first numeric objective, unchanged by a failure
+example : recRun [] [none, some [1, 2], none, some [2, 1], some [0, 0], some [3, 3]] =
+    [none, some 0, some 0, some 0, some 3, some 9] := by decide +kernel
+example : recRunFast [] [none, some [1, 2], none, some [2, 1], some [0, 0], some [3, 3]] =
+    [none, some 0, some 0, some 0, some 3, some 9] := by decide +kernel
+-- hypotheses of C12_recorder_monotone / C12_recorder_code are satisfiable
+example : Rect 2 [[5, 0], [0, 5], [4, 4], [-3, 1], [1, -3], [-2, -2]] := by
+  intro p hp; simp at hp; rcases hp with rfl | rfl | rfl | rfl | rfl | rfl <;> rfl
+example : ∀ p ∈ recPts [[5, 0], [0, 5], [4, 4], [-3, 1], [1, -3], [-2, -2]], ∀ k, k < 2 →
+    negInf < co p k - co (worst (recPts [[5, 0], [0, 5], [4, 4], [-3, 1], [1, -3], [-2, -2]])) k := by
+  decide +kernel
+example : recValueCode [[5, 0], [0, 5], [4, 4], [-3, 1], [1, -3], [-2, -2]] [0, 1, 2, 3, 4, 5] = some 55 ∧
+    recValue [[5, 0], [0, 5], [4, 4], [-3, 1], [1, -3], [-2, -2]] = some 55 := by decide +kernel
+-- dominated rows matter: the worst point (3,3) is made of coordinates of two different dominated
+-- rows; a history reduced to the front plus the single worst-sum row has another reference point
+-- and a smaller value (so no recorded row may be dropped, however long the history)
+example : worst (recPts [[5, 0], [0, 5], [4, 4], [-3, 1], [1, -3], [-2, -2]]) = [3, 3] ∧
+    recValue [[5, 0], [0, 5], [4, 4], [-2, -2]] = some 40 := by decide +kernel
+-- hypotheses of C12_ref_monotone
+example : wdVec [2, 2] [3, 3] = true ∧ hv [2, 2] [[-4, -4], [-5, 0]] = 38 ∧ hv [3, 3] [[-4, -4], [-5, 0]] = 52 := by
+  decide +kernel
+-- early stopping, patience 2: stops at the second non-improving job after the last improvement
+example : (stopRun 2 none Stopper.init [none, some 1, some 1, some 2, some 2, some 2]).map (fun s => (s.nLower, s.stopped)) =
+    [(0, false), (0, false), (1, false), (0, false), (1, false), (2, true)] := by decide +kernel
+example : (stopRun 2 (some 5) Stopper.init [some 1, some 1, some 1, some 6, some 6, some 6]).map (fun s => (s.nLower, s.stopped)) =
+    [(0, false), (1, false), (2, false), (0, false), (1, false), (2, true)] := by decide +kernel
+example : gtVal (some 2) (some 1) = true ∧ (0 : Nat) < 2 := by decide +kernel
 
 /-! ### regression: the two defects of the pinned `_hv.py` (model with the repairs switched off) -/
 
